@@ -384,7 +384,12 @@ func (c *Controller) flushEstablishedLink(el *establishedLink, hasNextLink bool)
 	le := c.loggerForLink(el.lnk)
 	le.Info("link lost/closed")
 
-	delete(c.links, el.lnk.GetUUID())
+	// remove the entry of this link only: it is stored under the uuid it had when it
+	// was established. If the link reports another uuid by now, that uuid may be the
+	// key of another (live) link, which must not be removed.
+	if c.links[el.uuid] == el {
+		delete(c.links, el.uuid)
+	}
 
 	peerID := el.lnk.GetRemotePeer()
 	peerLinks := c.linksByPeerID[peerID]
